@@ -9,15 +9,60 @@ TB = ("z3 5.1.0 (python3-vt wheel); the proxy engine /verif/symex (terms built b
       "executing the repository's unmodified functions; floats modelled as exact reals unless stated (FP mode: IEEE "
       "binary64 via z3 FloatingPoint)")
 
+SE = "bounded symbolic execution of the real Python functions over z3 (proxy values, path exploration, solver-decided assertions, native replay)"
+
 CHECKS = {
  # id: (design_ref, technique, text, note)
- "C03": ("DESIGN.md 4/C03",
-         "bounded symbolic execution of the real pruning functions over z3 (per-node lemma, all values, out-degree<=4)",
-         "Bounded symbolic execution of the real Solver.prune_reachability / prune_stochastich_game / prune_states: "
-         "one arbitrary Player 1 or probabilistic node in an arbitrary game (all arrangements of 0..K dead successors, "
-         "all probabilities and values as solver variables, K<=4), and prune_states on every skeleton with <=4 states; "
-         "the solver discharges every obligation on every path or returns a counterexample that is replayed natively.",
-         TB + "; locality of pruning (a node reads only its successors) enforced by the harness; out-degree > 4 outside"),
+ "C01": ("DESIGN.md 4/C01", SE + "; per-node lemmas + last-sweep loop post-condition; template runs vs exact Fraction oracle",
+         "Real value_iteration_reach of each node kind for ALL successor values/probabilities (out-degree<=4): max/min/sum, stays "
+         "below any fixed point it started below; real Solver.value_iteration_reachability run for its last sweep from an ARBITRARY "
+         "pre-state (n<=3): residual<=threshold on return, unlisted/final states untouched, seeding, 'no solution' iff pruning and "
+         "value 0. Whole solve() on template families vs exact max-min values (concrete doubles, Fraction oracle).",
+         TB + "; convergence closeness only on the template grid (KF-1: stopping rule unsound on slowly mixing chains); "
+              "non-expansiveness paper step links last-sweep change to residual"),
+ "C02": ("DESIGN.md 4/C02", SE + "; node lemmas, loop post-condition, whole solve() with ALL rewards symbolic vs SMT Bellman oracle",
+         "Real value_iteration_rewards per node kind (all values), last sweep of value_iteration_total_rewards from an arbitrary "
+         "pre-state, and the whole real solve() on stopping template families with every reward a solver variable: reported rewards "
+         "equal the unique solution of the reference-conditioned game's max-min equations within 4e-5, for all reward vectors at once.",
+         TB + "; probabilities concrete (grid); rewards in {0} u [1/8,4]; reference conditioning written from the statement"),
+ "C03": ("DESIGN.md 4/C03", SE + "; per-node conditioning lemma (all values, out-degree<=4) and prune_states on all small skeletons",
+         "Real Solver.prune_reachability / prune_stochastich_game / prune_states: one arbitrary Player 1 or probabilistic node in an "
+         "arbitrary game (all arrangements of 0..K dead successors, all probabilities and values as solver variables, K<=4), and "
+         "prune_states on every skeleton with <=4 states; every obligation decided by z3, counterexamples replayed natively.",
+         TB + "; locality of pruning enforced by the harness; out-degree > 4 outside"),
+ "C04": ("DESIGN.md 4/C04", SE + "; strategy-extraction lemmas for all values and digit counts; template runs vs exact arg-max sets",
+         "Real get_best/worst_strategies_reachability for all successor values (K<=4, digits 1..9): exactly the actions with extremal "
+         "rounded value, in order; equals the exact arg-max/arg-min set when values are equal or >10^-d apart; strategy table; "
+         "whole solve() on templates incl. float-sum ties vs exact optimal action sets, identical with pruning on/off.",
+         TB + "; round(x,d) modelled as a monotone function within half a unit of x fixing 0 and 1 (weaker than the real function)"),
+ "C05": ("DESIGN.md 4/C05", SE + "; extraction lemmas, inclusion lemma on the conditioning harness, whole solve() vs SMT reward oracle",
+         "Final-strategy extraction lemmas (all values); inclusion final<=reachability for an arbitrary Player 1 node after the real "
+         "conditioning; whole solve() with symbolic rewards: final strategies are exactly the permitted reward-optimal actions under "
+         "the quantifier's side condition (acyclic: arbitrary ties; cyclic: both 0 or separated).", TB + "; as C02"),
+ "C06": ("DESIGN.md 4/C06", SE + "; undeclared-exception detection on every path; sweep budget via logging stub; loop post-conditions",
+         "Every pipeline path either returns the complete 8-tuple or raises 'no solution' exactly when pruning is on and the exact value "
+         "of the initial state is 0; any other exception on any path is a violation; value iteration must stop within a sweep budget "
+         "on all template instances for all rewards.", TB + "; termination is bounded (templates, sweep budget), not proved in general"),
+ "C07": ("DESIGN.md 4/C07", "bounded-exhaustive case split over graphs (holes) with the real search executed per case; concrete depth sentinels",
+         "Real reverse_dfs / reverse_transition_list on EVERY graph with n<=3 (thorough n<=4) states and bounded out-degree, every final "
+         "list with order and repetition, against an independent fixed point; nothing symbolic survives inside this function (its "
+         "control flow is the graph), so the verdict is exhaustive enumeration within the bound; deep/wide graphs are concrete sentinels.",
+         TB + "; sizes beyond the bound covered by sentinels only"),
+ "C08": ("DESIGN.md 4/C08", SE + "; havoc-range per-tile lemmas for boards of unbounded size",
+         "Each of the nine transition builders run once for an ARBITRARY tile of a board of ANY length/width (havoc range): emitted "
+         "transitions equal the reference Roborta rules (labels, targets incl. wrap-around and last-row-wins, probabilities).",
+         TB + "; independence of loop iterations checked structurally on the AST; layout/composition checked on bounded boards"),
+ "C14": ("DESIGN.md 4/C14", SE + "; diagnostic-component lemmas; whole solve() vs SMT linear systems under the no-tie side condition",
+         "Real diagnostic components per node kind (all values) and whole solve() with symbolic rewards: the two diagnostic vectors equal "
+         "the solutions of the linear systems defined by the reported strategies, wherever successor rewards are separated.", TB + "; as C02"),
+ "C15": ("DESIGN.md 4/C15", SE + "; exact integers and IEEE doubles (z3 FloatingPoint) for the probabilities; recorder stubs for main()",
+         "Real check_input and main(): for ALL integers and ALL doubles incl. NaN/inf, invalid parameter sets end in ValueError before "
+         "anything is generated or written; valid ones reach the board generator and writer with exactly the requested values.",
+         TB + "; argparse's own parsing trusted; random board contents: see harness list"),
+ "C17": ("DESIGN.md 4/C17", SE + " in IEEE mode (z3 Float64) for prob_to_str; token-level symbolic strings for the name assembly",
+         "Real prob_to_str on fl(k/100) for every integral k in 1..99 renders k; different whole percents render differently; real main() "
+         "and create_sg_from_board assemble the name from exactly the right fields; every number is followed by a non-digit literal.",
+         TB + "; step from token sequences to strings (unique decodability) is a paper lemma"),
 }
 
 NA = {}
